@@ -2,20 +2,33 @@
 From JV Require Import Lib.Base Model.Ns Model.NsRun Spec.NestedDict.
 
 (* stored (clash-marked) form of a value -> user-visible form: only Namespace attribute names carry marks *)
-Fixpoint unmark_val (fuel : nat) (v : val) : val :=
-  match fuel with
-  | 0 => v
-  | S f => match v with
-           | VNs d => VNs (map (fun kv => (unmark (fst kv), unmark_val f (snd kv))) d)
-           | VList l => VList (map (unmark_val f) l)
-           | VTup l => VTup (map (unmark_val f) l)
-           | VDict d => VDict (map (fun kv => (fst kv, unmark_val f (snd kv))) d)
-           | x => x
-           end
+Fixpoint unmark_val (v : val) : val :=
+  match v with
+  | VNs d => VNs (map (fun kv => (unmark (fst kv), unmark_val (snd kv))) d)
+  | VList l => VList (map unmark_val l)
+  | VTup l => VTup (map unmark_val l)
+  | VDict d => VDict (map (fun kv => (fst kv, unmark_val (snd kv))) d)
+  | x => x
   end.
 
-Definition user_node (v : val) : node := node_of_val DEPTH (unmark_val DEPTH v).
-Definition node_val (n : node) : val := val_of_node DEPTH n.
+Definition user_node (v : val) : node := node_of_val (unmark_val v).
+Definition node_val (n : node) : val := val_of_node n.
+
+(* what the user sees of an output of the implementation / the model *)
+Definition unmark_out (o : out) : out :=
+  match o with
+  | OutVal v => OutVal (unmark_val v)
+  | OutItems l => OutItems (map (fun kv => (fst kv, unmark_val (snd kv))) l)
+  | x => x
+  end.
+
+(* the abstraction function of the refinement: a stored __dict__ tree seen as a nested dictionary
+   (attribute names un-marked, Namespaces become branches, everything else is a leaf) *)
+Definition abs_d (d : alist) : sdict := map (fun kv => (unmark (fst kv), user_node (snd kv))) d.
+
+(* a step of the model is related to a step of the spec: same user-visible output, same dictionary *)
+Definition rel_out (m : out * alist) (s : out * sdict) : Prop :=
+  unmark_out (fst m) = fst s /\ abs_d (snd m) = snd s.
 
 Definition spec_contains (p : list str) (d : sdict) : bool :=
   match spec_get p d with Some _ => true | None => false end.
@@ -39,9 +52,9 @@ Definition step_spec (st : sdict) (o : op) : out * sdict :=
       match spec_key k with
       | Some p => match spec_get p st with
                   | Some n => (OutVal (node_val n), st)
-                  | None => (OutVal (unmark_val DEPTH dflt), st)
+                  | None => (OutVal (unmark_val dflt), st)
                   end
-      | None => (OutVal (unmark_val DEPTH dflt), st)
+      | None => (OutVal (unmark_val dflt), st)
       end
   | OContains k =>
       match spec_key k with
@@ -58,7 +71,7 @@ Definition step_spec (st : sdict) (o : op) : out * sdict :=
       | Some p =>
           match spec_get p st, spec_del p st with
           | Some n, Some st' => (OutVal (node_val n), st')
-          | _, _ => (OutVal (unmark_val DEPTH dflt), st)
+          | _, _ => (OutVal (unmark_val dflt), st)
           end
       | None => (OutFail, st)
       end
@@ -85,20 +98,20 @@ Definition step_spec (st : sdict) (o : op) : out * sdict :=
               | None => (s, true)
               | Some p => if ou && spec_contains p s then (s, false)
                           else (spec_set p (user_node (snd kv)) s, false)
-              end) (spec_items DEPTH false sd) (st, false) in
+              end) (spec_items false sd) (st, false) in
           (if failed then OutFail else OutUnit, st')
       | Leaf _ => (OutFail, st)
       end
   | OClone => (OutBool true, st)
-  | OItems br => (OutItems (spec_items DEPTH br st), st)
-  | OAsDict => (OutVal (VDict (spec_as_dict DEPTH st)), st)
+  | OItems br => (OutItems (spec_items br st), st)
+  | OAsDict => (OutVal (spec_as_dict st), st)
   | OInitDict d =>
-      match unmark_val DEPTH d with
+      match unmark_val d with
       | VDict dd =>
           let r := fold_left (fun (acc : option sdict) (kv : str * val) =>
                      match acc with
                      | None => None
-                     | Some s => spec_set_key (fst kv) (node_of_val DEPTH (snd kv)) s
+                     | Some s => spec_set_key (fst kv) (node_of_val (snd kv)) s
                      end) dd (Some []) in
           match r with Some st' => (OutUnit, st') | None => (OutFail, st) end
       | _ => (OutFail, st)
